@@ -51,7 +51,7 @@ for sid in ids:
         if "--tests" in flags:
             t = subprocess.run(["/venv/bin/python", "-m", "pytest", "-q", "-p", "no:cacheprovider", "-n", "16"], cwd=d, capture_output=True, text=True)
             tail = t.stdout.strip().splitlines()[-1] if t.stdout.strip() else t.stderr[-200:]
-            ok = "2104 passed" in tail and "failed" not in tail and "error" not in tail
+            ok = "2104 passed" in tail and not re.search(r"\b\d+ (failed|error)", tail)
             line += "  tests: %s %s" % (re.sub(r" in [0-9.]+s.*", "", tail), "ok" if ok else "TESTS-BAD")
             bad += 0 if ok else 1
         if do_all or "--check" in flags:
